@@ -1226,71 +1226,104 @@ func ruleT12(c *Ctx, id string) {
 // takes the source directory for it).
 func ruleT13(c *Ctx, id string) {
 	V, P, R := c.V, c.P, c.R
-	R.Rule(id, "RENAME relocks what it needs: a bulk acquisition of fewer than four numbers lies on the side where the two directory inodes are the same object", 2)
+	R.Rule(id, "RENAME relocks what it needs: a bulk acquisition of three numbers (one directory and two objects) lies on the side where the two directory inodes are the same object; every position of a list is assigned", 2)
 	ren := c.fn(id, "nfs.(*Nfs).NFSPROC3_RENAME")
 	lock := c.fn(id, "nfs.lockInodes")
 	if ren == nil || lock == nil {
 		return
 	}
-	sameDir := func(want token.Token) func(Cond) (bool, bool) {
-		return func(cd Cond) (bool, bool) {
-			if (cd.Op != token.EQL && cd.Op != token.NEQ) || cd.X == nil || cd.Y == nil {
-				return false, false
+	sameDir := func(want token.Token) CondMatcherX {
+		return func(sub Subst) func(Cond) (bool, bool) {
+			return func(cd Cond) (bool, bool) {
+				op, x, y := cd.Op, cd.X, cd.Y
+				if op == token.ILLEGAL && x != nil {
+					// the outcome of the comparison handed on as a boolean (a parameter of a helper)
+					bo, isB := sub.resolve(stripConv(x)).(*ssa.BinOp)
+					if !isB || (bo.Op != token.EQL && bo.Op != token.NEQ) {
+						return false, false
+					}
+					if derefNamed(bo.X.Type()) != V.Inode || derefNamed(bo.Y.Type()) != V.Inode || isNilConst(bo.X) || isNilConst(bo.Y) {
+						return false, false
+					}
+					return true, bo.Op == want
+				}
+				if (op != token.EQL && op != token.NEQ) || x == nil || y == nil {
+					return false, false
+				}
+				if derefNamed(x.Type()) != V.Inode || derefNamed(y.Type()) != V.Inode || isNilConst(x) || isNilConst(y) {
+					return false, false
+				}
+				return true, op == want
 			}
-			if derefNamed(cd.X.Type()) != V.Inode || derefNamed(cd.Y.Type()) != V.Inode || isNilConst(cd.X) || isNilConst(cd.Y) {
-				return false, false
-			}
-			return true, cd.Op == want
 		}
 	}
 	n := 0
-	for _, sc := range scopesOf(ren) {
+	allScopes := scopesOf(ren)
+	for _, sc := range allScopes {
 		for _, call := range P.CallsIn(sc.Fn, funcIs(lock)) {
 			args := nonRecvArgs(call)
 			if len(args) < 2 {
 				continue
 			}
-			ln := int64(-1)
-			switch x := sc.S.resolve(stripConv(args[1])).(type) {
-			case *ssa.MakeSlice:
-				ln, _ = constInt(x.Len)
-			case *ssa.Slice:
-				if al, ok := stripConv(x.X).(*ssa.Alloc); ok {
-					if at, ok := derefType(al.Type()).Underlying().(*types.Array); ok {
-						ln = at.Len()
+			// the lists the call can be handed: one, or one per arm when the arms build the list and share the call
+			type cand struct {
+				v  ssa.Value
+				at *ssa.BasicBlock
+			}
+			var cands []cand
+			top := sc.S.resolve(stripConv(args[1]))
+			if ph, isP := top.(*ssa.Phi); isP && ph.Block().Parent() == sc.Fn {
+				for i, e := range ph.Edges {
+					cands = append(cands, cand{sc.S.resolve(stripConv(e)), ph.Block().Preds[i]})
+				}
+			} else {
+				cands = append(cands, cand{top, call.Block()})
+			}
+			for _, cd := range cands {
+				ln := int64(-1)
+				var holders []ssa.Value // the values whose IndexAddr stores fill the list
+				switch x := cd.v.(type) {
+				case *ssa.MakeSlice:
+					ln, _ = constInt(x.Len)
+					holders = append(holders, x)
+				case *ssa.Slice:
+					if al, ok := stripConv(x.X).(*ssa.Alloc); ok {
+						if at, ok := derefType(al.Type()).Underlying().(*types.Array); ok {
+							ln = at.Len()
+							holders = append(holders, x, al)
+						}
 					}
 				}
-			}
-			if ln < 0 {
-				continue // a list of another form (built by a helper): the roles of T3 judge it
-			}
-			// a list made with make([]Inum, n) is filled position by position: all of them
-			lv := sc.S.resolve(stripConv(args[1]))
-			_, isMS := lv.(*ssa.MakeSlice)
-			_, isSl := lv.(*ssa.Slice)
-			if isMS || isSl {
+				if ln < 0 {
+					continue // a list of another form (built by a helper): the roles of T3 judge it
+				}
 				filled := map[int64]bool{}
-				for _, r := range refs(lv) {
-					if ia, ok := r.(*ssa.IndexAddr); ok {
-						if k, isk := constInt(ia.Index); isk {
-							for _, r2 := range refs(ia) {
-								if st, ok := r2.(*ssa.Store); ok && st.Addr == ssa.Value(ia) {
-									filled[k] = true
+				for _, h := range holders {
+					for _, r := range refs(h) {
+						if ia, ok := r.(*ssa.IndexAddr); ok {
+							if kk, isk := constInt(ia.Index); isk {
+								for _, r2 := range refs(ia) {
+									if st, ok := r2.(*ssa.Store); ok && st.Addr == ssa.Value(ia) {
+										filled[kk] = true
+									}
 								}
 							}
 						}
 					}
 				}
 				R.Check(int64(len(filled)) == ln, id, fmt.Sprintf("NFSPROC3_RENAME|relock list of %d: every position filled", ln), P.Pos(call.Pos()), "each of the positions of the list is assigned an inode number", fmt.Sprintf("%d of %d", len(filled), ln), fmt.Sprintf("only %d of the %d positions are assigned: the others are 0, the reserved inode number - the bulk acquisition fails (or locks the wrong inode) every time and RENAME onto an existing name retries for ever", len(filled), ln))
-			}
-			n++
-			R.Analysed[FuncName(ren)] = true
-			if ln >= 4 {
-				// both directories and both objects: right on either side (a repeated number is skipped, C06.L1)
-				R.Pass(id, fmt.Sprintf("NFSPROC3_RENAME|relock of %d inodes", ln), P.Pos(call.Pos()), "the list names both directories and both objects", "complete list")
-			} else {
-				g := guardedBy(sc.Fn, call.Block(), sameDir(token.EQL))
-				R.Check(g, id, fmt.Sprintf("NFSPROC3_RENAME|relock of %d inodes only within one directory", ln), P.Pos(call.Pos()), "the short list is used on the side where source and target directory are the same inode", "dominated by that side", "a RENAME between two directories relocks only one of them: the target directory is changed without its lock (and the source directory is taken for it) - a concurrent operation in the target directory sees and overwrites half-applied updates")
+				n++
+				R.Analysed[FuncName(ren)] = true
+				if ln < 3 {
+					// the two directories of the first phase: not a relock of directories and objects
+					R.Pass(id, fmt.Sprintf("NFSPROC3_RENAME|list of %d inodes", ln), P.Pos(call.Pos()), "not a list of directories and objects", "first-phase acquisition")
+				} else if ln >= 4 {
+					// both directories and both objects: right on either side (a repeated number is skipped, C06.L1)
+					R.Pass(id, fmt.Sprintf("NFSPROC3_RENAME|relock of %d inodes", ln), P.Pos(call.Pos()), "the list names both directories and both objects", "complete list")
+				} else {
+					g := guardedUp(allScopes, sc, cd.at, sameDir(token.EQL))
+					R.Check(g, id, fmt.Sprintf("NFSPROC3_RENAME|relock of %d inodes only within one directory", ln), P.Pos(call.Pos()), "the short list is used on the side where source and target directory are the same inode", "dominated by that side", "a RENAME between two directories relocks only one of them: the target directory is changed without its lock (and the source directory is taken for it) - a concurrent operation in the target directory sees and overwrites half-applied updates")
+				}
 			}
 		}
 	}
